@@ -284,6 +284,18 @@ func MonC19(c *MonCtx) {
 			c.Violate("C19", "C19/diff: "+cmd+" changed an object other than its documented target", k)
 		}
 	}
+	// postcondition: whatever the object looked like before, an accepted command leaves its documented keys at their
+	// documented values (a key left over from an earlier, opposite command included)
+	if e1 := post.EDS(ns, name); e1 != nil {
+		for short, want := range kubectlDocumented[cmd] {
+			if want == "<canary-rs>" {
+				want = canaryRS
+			}
+			if got, ok := Annot(e1, short); !ok || got != want {
+				c.Violate("C19", "C19/effect: after an accepted "+cmd+" a documented annotation does not carry its documented value", fmt.Sprintf("%s=%q (present=%v), documented %q", short, got, ok, want))
+			}
+		}
+	}
 	// remember the command for the interpretation oracle
 	if post.Mem == nil {
 		post.Mem = map[string]string{}
